@@ -1,10 +1,13 @@
 (** Proofs/DefFileProofs.v — lemmas for property C10 (definition files).
-    1. decimal printer / [parse_number] round trip
-    2. string lemmas, [parse_line (print_def v d) = Ok d]
-    3. [elab1] factored into [pre]/[act]; permuted definition lists build the same tables;
-       [meaning] is order independent on unambiguous closed sets of names
-    4. ill-formed definitions: [elab1] errors, undefined references, cycles
-    5. numeric kinds of literals; name validity with the symbol check repaired (F56) *)
+    part 1     decimal printer / [parse_number] round trip ([parse_print_dec])
+    part 2–4   string lemmas; [parse_line (print_def v d) = Ok (LnDef d)] ([parse_print_def])
+    part 5–7   [elab1] = [pre] then [act]; permuted definition lists build the same three tables
+               ([run_acts_perm]); name resolution sees the ordered key list only through its members
+               when the string has one reading; [meaning] is order independent on closed,
+               unambiguous sets of names ([meaning_order_independent])
+    part 8     ill-formed definitions: [elab1] errors, undefined references, cycles
+    part 9     numeric kinds of literals; name validity with the symbol check repaired (F56)
+    part 10    the hypotheses of order independence on the definitions regenerated from /repo *)
 From Coq Require Import ZArith Lia ZifyBool Ascii String.
 From PintV Require Import Model.UC Model.Eval Model.Registry Model.DefFile Proofs.UCProofs Proofs.RegistryProofs.
 Open Scope string_scope.
